@@ -80,6 +80,42 @@ C[PA + 'slice'] = dict(
     },
 )
 
+# slice wherever the cuts fall (also strictly inside an interval -- what digest() does to a protein with an ambiguity interval, C07):
+# the result is a WELL-FORMED peptide (every interval non-empty and inside the new residue string, so its text can be written and
+# read back), with the residues, residue modifications, terminal modifications and global annotations of the range
+_ANY_POST = [(l, t) for l, t in _SLICE_POST if l in ('residues', 'residue-mods-exactly', 'residue-mods-values', 'no-empty-interval-list',
+                                                     'nterm-iff-start', 'cterm-iff-end', 'globals-kept')] + \
+            [('well-formed-result', 'wf(R)'),
+             # every interval of the result is an interval of the peptide clipped to the range and re-indexed, with its own modifications
+             ('intervals-are-clipped-intervals', 'R._intervals is None or (self._intervals is not None and forall(lambda i: implies(0 <= i and i < len(ivs(R)), '
+              'exists(lambda k: 0 <= k and k < len(ivs(self)) and ivs(R)[i].start == ite(ivs(self)[k].start > a, ivs(self)[k].start - a, 0) and '
+              'some(ivs(R)[i].end) == ite(some(ivs(self)[k].end) < b, some(ivs(self)[k].end) - a, b - a) and '
+              'ivs(R)[i].mods == ivs(self)[k].mods and ivs(R)[i].ambiguous == ivs(self)[k].ambiguous))))')]
+_CLIP_INV = ('forall(lambda i: implies(0 <= i and i < len(some(new_intervals)), '
+             'exists(lambda k: 0 <= k and k < _k1 and some(new_intervals)[i].start == ite(ivs(self)[k].start > a, ivs(self)[k].start - a, 0) and '
+             'some(some(new_intervals)[i].end) == ite(some(ivs(self)[k].end) < b, some(ivs(self)[k].end) - a, b - a) and '
+             'some(new_intervals)[i].mods == ivs(self)[k].mods and some(new_intervals)[i].ambiguous == ivs(self)[k].ambiguous)))')
+C[PA + 'slice@anycut'] = dict(
+    params=dict(self='Annotation', start='Optional[int]', stop='Optional[int]', inplace='bool'),
+    returns='Optional[Annotation]',
+    locals=dict(new_internal_mods='Optional[Dict[int,ModList]]', new_intervals='Optional[List[Interval]]'),
+    ghost=dict(n='len(self._sequence)', a='0 if start is None else some(start)', b='len(self._sequence) if stop is None else some(stop)'),
+    requires=[('range', '0 <= a and a <= b and b <= n'), ('wf', 'wf(self)'),
+              # an EMPTY slice taken strictly inside an interval keeps that interval as an empty one (0, 0): outside this contract
+              ('empty-slice-not-inside-an-interval', 'a < b or self._intervals is None or forall(lambda i: implies(0 <= i and i < len(ivs(self)),'
+               ' not (ivs(self)[i].start < a and a < some(ivs(self)[i].end))))')],
+    ensures=[('returns-new-or-none', '(result is None) == inplace')] +
+            [(l + '/new', 'implies(not inplace, ' + t.replace('R', 'some(result)') + ')') for l, t in _ANY_POST] +
+            [(l + '/inplace', 'implies(inplace, ' + t.replace('R', 'self_final') + ')') for l, t in _ANY_POST] +
+            [('argument-unchanged', 'implies(not inplace, self_final == self)')],
+    invariants={
+        0: C[PA + 'slice']['invariants'][0],
+        1: [('is-list', 'new_intervals is not None'),
+            ('kept-wf', C[PA + 'slice']['invariants'][1][2][1]),
+            ('kept-are-clipped', _CLIP_INV)],
+    },
+)
+
 # ---------------------------------------------------------------- shift
 # rot(p): where residue p ends up = (p - k) mod n, written without `mod` for 0 <= p < n and es = k mod n in [0, n)
 MACROS['rot'] = (['p', 'es', 'n'], 'ite(p >= es, p - es, p - es + n)')
@@ -135,7 +171,11 @@ _REV_POST = [
     ('no-other-mods', 'forall(lambda j: implies(im_has(R, j), 0 <= j and j < n))'),
     # "ambiguity intervals still cover the same residues after a reversal": [s, e) -> [n - e, n - s)
     ('intervals-cover-same-residues', '(R._intervals is None) == (self._intervals is None) and (self._intervals is None or (len(ivs(R)) == len(ivs(self)) and '
-                                      'forall(lambda k: implies(0 <= k and k < len(ivs(self)), ivs(R)[k] == ' + _IVREV + '))))'),
+                                      'forall(lambda k: implies(0 <= k and k < len(ivs(self)), ivs(R)[len(ivs(self)) - 1 - k] == ' + _IVREV + '))))'),
+    # ... and stay in sequence order (the serializer writes the brackets in list order)
+    ('intervals-stay-in-sequence-order', 'implies(self._intervals is not None, forall(lambda j, k: implies(0 <= j and j < k and k < len(ivs(self)) and '
+                                         'ivs(self)[j].end is not None and some(ivs(self)[j].end) <= ivs(self)[k].start, '
+                                         'some(ivs(R)[len(ivs(self)) - 1 - k].end) <= ivs(R)[len(ivs(self)) - 1 - j].start)))'),
     # "global and terminal annotations stay in place (or swap when asked)"
     ('termini-stay-or-swap', 'R._nterm_mods == (self._cterm_mods if swap_terms else self._nterm_mods) and '
                              'R._cterm_mods == (self._nterm_mods if swap_terms else self._cterm_mods)'),
